@@ -40,11 +40,13 @@ class Recorder(object):
         import tlslite.tlsrecordlayer as trl
         import tlslite.handshakehelpers as hhp
         self.paused = 0
+        self.side = '?'
+        self.tagged = []        # (side, module, hash name)
         # every hash name handed to the key-schedule helpers, in every module that does TLS 1.3 derivations
         for mod in (rl, tc, trl, hhp):
             for n in ('HKDF_expand_label', 'derive_secret', 'secureHMAC'):
                 if hasattr(mod, n):
-                    setattr(mod, n, self._wrap_hash(getattr(mod, n)))
+                    setattr(mod, n, self._wrap_hash(getattr(mod, n), mod.__name__.split('.')[-1]))
         # ticket encryption keys depend on settings.ticketCipher, not on the suite: not recorded
         dk = tc.TLSConnection.__dict__.get('_derive_key_iv')
         if dk is not None:
@@ -67,7 +69,7 @@ class Recorder(object):
             return f(key, *a, **kw)
         return w
 
-    def _wrap_hash(self, f):
+    def _wrap_hash(self, f, modname='?'):
         if getattr(f, '_c20', False):
             return f
 
@@ -75,6 +77,7 @@ class Recorder(object):
             if not self.paused:
                 algo = kw.get('algorithm', a[-1] if a else None)
                 self.hkdf.append(str(algo))
+                self.tagged.append((self.side, modname, str(algo)))
             return f(*a, **kw)
         w._c20 = True
         return w
@@ -87,6 +90,8 @@ class Recorder(object):
 
     def reset(self):
         self.fact, self.prfs, self.hkdf = [], [], []
+        self.tagged = []
+        self.side = '?'
 
 
 def recorder():
@@ -208,6 +213,8 @@ def wire_view(c2s, s2c):
         minor = exts[43][1]
     w['sh_ver'] = minor
     w['sh_exts'] = sorted(exts)
+    if 41 in exts and len(exts[41]) == 2:
+        w['sh_psk'] = int.from_bytes(exts[41], 'big')
     ver = (3, minor)
     if minor == 4:
         w['wire_kx'] = 'tls13' if 51 in exts else 'tls13-no-keyshare'
@@ -229,6 +236,9 @@ def wire_view(c2s, s2c):
             w['wire_cert'] = 'empty'
     skes = [b for t, b in sm if t == 12]
     ckes = [b for t, b in cm if t == 16]
+    if not ckes and not skes and not certs and any(t == 20 for t, _ in s2c) and any(t == 20 for t, _ in c2s):
+        w['wire_kx'] = 'resumed'        # abbreviated handshake: ServerHello, [NewSessionTicket], CCS, Finished
+        return w
     if len(ckes) != 1 or len(skes) > 1:
         w['wire_kx'] = 'unknown:ske=%d,cke=%d' % (len(skes), len(ckes))
         return w
@@ -432,6 +442,157 @@ def app_lens(chunks, start):
 CFGS = ('client-pinned', 'server-pinned')
 
 
+def observe(pair, rec, out, sid, ver, n_app):
+    """what a completed connection looks like (objects, calls, application records, exporter)"""
+    out['cli'] = side_view(pair.client)
+    out['srv'] = side_view(pair.server)
+    out['fact'] = sorted(set(rec.fact))
+    out['prfs'] = sorted(set(rec.prfs))
+    out['hkdf'] = sorted(set(rec.hkdf))
+    nc, ns = len(records(pair.csock.sent_log)), len(records(pair.ssock.sent_log))
+    data = bytes((i * 7 + sid) & 0xff for i in range(n_app))
+    w1 = pair.transfer(pair.client, pair.server, data)
+    w2 = pair.transfer(pair.server, pair.client, data)
+    out['app_ok'] = bool(w1[2] == data and w2[2] == data)
+    out['c2s'] = app_lens(pair.csock.sent_log, nc)
+    out['s2c'] = app_lens(pair.ssock.sent_log, ns)
+    out['n'] = n_app
+    if ver >= (3, 1):
+        out['exporter'] = exporter_view(pair, ver)
+    return data
+
+
+def cut_offer(conn, keep, out=None):
+    """the ClientHello of `conn` offers only the suites in `keep` (plus the renegotiation SCSV)"""
+    orig_send = conn._sendMsg
+
+    def send(msg, *a, **kw):
+        if type(msg).__name__ == 'ClientHello' and hasattr(msg, 'cipher_suites'):
+            have = list(msg.cipher_suites)
+            msg.cipher_suites = [x for x in have if x in keep or x == 0x00FF]
+            for x in keep:
+                if x not in have:
+                    msg.cipher_suites.append(x)
+                    if out is not None:
+                        out['forced_into_offer'] = True
+        return orig_send(msg, *a, **kw)
+    conn._sendMsg = send
+
+
+def resume_step(case, pair, rec, out, ckw, skw, kind, ver, n_app):
+    """TLS <= 1.2: a second connection that offers the session of the first one.
+    mode 'sid' / 'ticket': honest resumption by session ID / by ticket;
+    'srv-deviates': the server's cache entry is rewritten to another offered suite `alt` (a server answering a
+                    resumption with a different suite; the client has to refuse);
+    'cli-deviates': the client offers the session but only the other suite `alt` (the server must not resume)."""
+    import loop
+    mode, alt, sid = case['resume'], case.get('alt'), case['sid']
+    sess = pair.client.session
+    info = {'mode': mode, 'alt': alt, 'session_suite': int(sess.cipherSuite), 'tickets': len(sess.tickets or []) if hasattr(sess, 'tickets') else 0,
+            'tls10_ticket': bool(getattr(sess, 'tls_1_0_tickets', None))}
+    if mode == 'srv-deviates':
+        cache = skw['sessionCache']
+        try:
+            cache[sess.sessionID].cipherSuite = alt
+            info['rewritten'] = True
+        except KeyError:
+            info['rewritten'] = False
+    rec.reset()
+    pair2 = loop.Pair()
+    keep = {'sid': [sid], 'ticket': [sid], 'srv-deviates': [sid, alt], 'cli-deviates': [alt]}[mode]
+    cut_offer(pair2.client, keep)
+    ckw2 = dict(ckw)
+    ckw2['session'] = sess
+    c, s = pair2.handshake(client_kw=ckw2, server_kw=skw, client_kind=kind)
+    res = {'sid': sid, 'ver': ver[1], 'cfg': out['cfg'] + '/resume:' + mode, 'ok': False, 'resume': info,
+           'outcome': [list(map(str, loop.classify(c))), list(map(str, loop.classify(s)))]}
+    try:
+        res['wire'] = wire_view(records(pair2.csock.sent_log), records(pair2.ssock.sent_log))
+    except Exception as e:  # noqa
+        res['wire'] = None
+        res['wire_error'] = repr(e)
+    if c[0] != 'ok' or s[0] != 'ok' or res['wire'] is None:
+        return res
+    res['ok'] = True
+    info['resumed'] = [bool(pair2.client.resumed), bool(pair2.server.resumed)]
+    # a resumed connection is judged against the suite of the session it resumes, a full one against its own
+    res['sid'] = sid if pair2.client.resumed else res['wire']['sh_suite']
+    observe(pair2, rec, res, res['sid'], ver, n_app)
+    return res
+
+
+PSKS = {'sha256': (b"psk-for-sha256", b"\x11" * 32, 'sha256'), 'sha384': (b"psk-for-sha384", b"\x22" * 48, 'sha384')}
+
+
+def tag_side(gen, rec, side):
+    """run a handshake generator, telling the recorder whose code is executing"""
+    while True:
+        rec.side = side
+        try:
+            v = next(gen)
+        except StopIteration:
+            return
+        finally:
+            rec.side = '?'
+        yield v
+
+
+def run_psk_flow(case, pair, rec, out, cs, ss, ckw, skw):
+    """TLS 1.3 with externally provisioned PSKs: case['psks'] = the configured hashes in the order both ends list
+    them; the offer is cut to the one suite BEFORE the binders are computed.  Observed: the identity the ServerHello
+    selects, every hash name each END hands to the key-schedule helpers (binder computations apart)."""
+    import loop
+    import tlslite.handshakehelpers as hhp
+    sid = case['sid']
+    cfgs = [PSKS[h] for h in case['psks']]
+    cs.pskConfigs, ss.pskConfigs = list(cfgs), list(cfgs)
+    if not case.get('cert', True):
+        skw.pop('certChain', None)
+        skw.pop('privateKey', None)
+    ckw.pop('certChain', None)
+    ckw.pop('privateKey', None)
+    out['cfg'] = 'psk:%s%s' % ('+'.join(case['psks']), '' if case.get('cert', True) else '/no-cert')
+    out['psks'] = list(case['psks'])
+    orig_ub = hhp.HandshakeHelpers.__dict__['update_binders']
+    f_ub = orig_ub.__func__ if isinstance(orig_ub, staticmethod) else orig_ub
+
+    def ub(client_hello, *a, **kw):
+        client_hello.cipher_suites = [x for x in client_hello.cipher_suites if x in (sid, 0x00FF)]
+        return f_ub(client_hello, *a, **kw)
+    hhp.HandshakeHelpers.update_binders = staticmethod(ub)
+    try:
+        cg = pair.client.handshakeClientCert(async_=True, **ckw)
+        sg = pair.server.handshakeServerAsync(**skw)
+        c, s = loop.drive([tag_side(cg, rec, 'c'), tag_side(sg, rec, 's')])
+    finally:
+        hhp.HandshakeHelpers.update_binders = orig_ub
+    out['outcome'] = [list(map(str, loop.classify(c))), list(map(str, loop.classify(s)))]
+    try:
+        out['wire'] = wire_view(records(pair.csock.sent_log), records(pair.ssock.sent_log))
+    except Exception as e:  # noqa
+        out['wire'] = None
+        out['wire_error'] = repr(e)
+    t = list(rec.tagged)
+    out['psk'] = {
+        'selected': (out['wire'] or {}).get('sh_psk'),
+        'srv': sorted(set(h for sd, mod, h in t if sd == 's')),
+        'srv_binder': sorted(set(h for sd, mod, h in t if sd == 's' and mod == 'handshakehelpers')),
+        'cli': sorted(set(h for sd, mod, h in t if sd == 'c' and mod != 'handshakehelpers')),
+        'cli_binder': sorted(set(h for sd, mod, h in t if sd == 'c' and mod == 'handshakehelpers')),
+        'untagged': sorted(set(h for sd, mod, h in t if sd == '?')),
+    }
+    if c[0] != 'ok' or s[0] != 'ok' or not out['wire']:
+        return out
+    out['ok'] = True
+    out['cli'] = side_view(pair.client)
+    out['srv'] = side_view(pair.server)
+    data = bytes((i * 5 + sid) & 0xff for i in range(64))
+    w1 = pair.transfer(pair.client, pair.server, data)
+    w2 = pair.transfer(pair.server, pair.client, data)
+    out['app_ok'] = bool(w1[2] == data and w2[2] == data)
+    return out
+
+
 def run_case(case):
     """case: dict(sid, ver=(3,x), cfg, seed).  Credentials and handshake kind come from the parsed name."""
     import loop
@@ -482,17 +643,16 @@ def run_case(case):
             ss.ticketKeys = [bytearray(range(32))]
             cch, ckey = loop.creds('client-rsa')     # a configured client certificate makes the client offer PHA
             ckw.update(certChain=cch, privateKey=ckey)
+        if case.get('psks'):
+            return run_psk_flow(case, pair, rec, out, cs, ss, ckw, skw)
+        if case.get('resume'):
+            from tlslite.api import SessionCache
+            if case['resume'] == 'ticket':
+                ss.ticketKeys = [bytearray(range(32))]
+            else:
+                skw['sessionCache'] = SessionCache()
         # the client's offer is cut down to the one suite (plus the renegotiation SCSV)
-        orig_send = pair.client._sendMsg
-
-        def send(msg, *a, **kw):
-            if type(msg).__name__ == 'ClientHello' and hasattr(msg, 'cipher_suites'):
-                msg.cipher_suites = [x for x in msg.cipher_suites if x in (sid, 0x00FF)]
-                if sid not in msg.cipher_suites:
-                    msg.cipher_suites.append(sid)
-                    out['forced_into_offer'] = True
-            return orig_send(msg, *a, **kw)
-        pair.client._sendMsg = send
+        cut_offer(pair.client, [sid], out)
         c, s = pair.handshake(client_kw=ckw, server_kw=skw, client_kind=kind)
         out['outcome'] = [list(map(str, loop.classify(c))), list(map(str, loop.classify(s)))]
         try:
@@ -505,21 +665,12 @@ def run_case(case):
         if out['wire'] is None:
             raise RuntimeError('cannot parse the handshake records: ' + out['wire_error'])
         out['ok'] = True
-        out['cli'] = side_view(pair.client)
-        out['srv'] = side_view(pair.server)
-        out['fact'] = sorted(set(rec.fact))
-        out['prfs'] = sorted(set(rec.prfs))
-        out['hkdf'] = sorted(set(rec.hkdf))
-        nc, ns = len(records(pair.csock.sent_log)), len(records(pair.ssock.sent_log))
-        data = bytes((i * 7 + sid) & 0xff for i in range(n_app))
-        w1 = pair.transfer(pair.client, pair.server, data)
-        w2 = pair.transfer(pair.server, pair.client, data)
-        out['app_ok'] = bool(w1[2] == data and w2[2] == data)
-        out['c2s'] = app_lens(pair.csock.sent_log, nc)
-        out['s2c'] = app_lens(pair.ssock.sent_log, ns)
-        out['n'] = n_app
-        if ver >= (3, 1):
-            out['exporter'] = exporter_view(pair, ver)
+        data = observe(pair, rec, out, sid, ver, n_app)
+        if case.get('resume') and ver <= (3, 3):
+            out['first'] = {'ok': True, 'app_ok': out.get('app_ok')}
+            res = resume_step(case, pair, rec, out, ckw, skw, kind, ver, n_app)
+            res['first_ok'] = True
+            return res
         if ver == (3, 4) and case.get('post', True) and m is not None:
             out['post'] = tls13_post(pair, m, data[:64] or b"x", out, skw, cs, ckw)
             out['hkdf'] = sorted(set(rec.hkdf))
